@@ -78,9 +78,18 @@ impl<'a> FullnameSerializer<'a> {
         Self {
             xot,
             stack: vec![FullnameInfo {
-                all_namespaces: defined_namespaces,
+                all_namespaces: Self::usable(xot, defined_namespaces),
             }],
         }
+    }
+
+    // a declaration that binds the xml prefix to another namespace is never
+    // written, so it binds nothing as far as names are concerned
+    fn usable(xot: &Xot, mut defined_namespaces: NamespaceDeclarations) -> NamespaceDeclarations {
+        defined_namespaces.retain(|(prefix, namespace)| {
+            *prefix != xot.xml_prefix() || *namespace == xot.xml_namespace()
+        });
+        defined_namespaces
     }
 
     pub(crate) fn push(&mut self, defined_namespaces: NamespaceDeclarations) {
@@ -90,6 +99,7 @@ impl<'a> FullnameSerializer<'a> {
         if defined_namespaces.is_empty() {
             return;
         }
+        let defined_namespaces = Self::usable(self.xot, defined_namespaces);
         let current_fullname_info = self.stack.last().unwrap();
         self.stack
             .push(FullnameInfo::new(defined_namespaces, current_fullname_info));
